@@ -16,12 +16,15 @@ package main
 
 import (
 	"crypto"
+	"crypto/rand"
 	"crypto/x509"
+	"crypto/x509/pkix"
 	"encoding/base64"
 	"encoding/hex"
 	"encoding/json"
 	"encoding/pem"
 	"fmt"
+	"math/big"
 	"os"
 	"path/filepath"
 	"sort"
@@ -77,7 +80,81 @@ func newWorld() *world {
 	mk("dave", w.inter, "inter", lib.CertOpts{CN: "alice", Orgs: []string{"acme"},
 		NotBefore: time.Now().Add(-48 * time.Hour), NotAfter: time.Now().Add(-24 * time.Hour)}, true)
 	mk("eve", w.evil, "evil", lib.CertOpts{CN: "alice", Orgs: []string{"acme"}}, false)
+	// other certificates for the SAME keys (a key id is the hash of the public key only):
+	// issued by the foreign root, or self-signed, with the attributes of the genuine certificate
+	for _, n := range []string{"alice", "bob", "carol"} {
+		g := w.leaves[n]
+		w.leaves[n+"-rogue-foreign"] = rogueCert(g, n+"-rogue-foreign", w.evil, "evil")
+		w.leaves[n+"-rogue-self"] = rogueCert(g, n+"-rogue-self", nil, "self")
+	}
 	return w
+}
+
+var rogueSerial int64 = 900000
+
+// rogueCert makes another certificate for the key of the genuine functionary g (same public key, same
+// subject attributes), issued by ca (nil: self-signed). The in-toto key is g's key with the new certificate.
+func rogueCert(g *certFn, name string, ca *lib.CA, under string) *certFn {
+	rogueSerial++
+	tmpl := &x509.Certificate{
+		SerialNumber: big.NewInt(rogueSerial),
+		Subject:      pkix.Name{CommonName: g.cn, Organization: g.orgs},
+		NotBefore:    time.Now().Add(-time.Hour), NotAfter: far(),
+		KeyUsage: x509.KeyUsageDigitalSignature,
+	}
+	issuer, issuerKey := tmpl, crypto.Signer(g.leaf.Signer)
+	if ca != nil {
+		issuer, issuerKey = ca.Cert, ca.Signer
+	}
+	der, err := x509.CreateCertificate(rand.Reader, tmpl, issuer, g.leaf.Signer.Public(), issuerKey)
+	if err != nil {
+		panic(err)
+	}
+	c, err := x509.ParseCertificate(der)
+	if err != nil {
+		panic(err)
+	}
+	p := pem.EncodeToMemory(&pem.Block{Type: "CERTIFICATE", Bytes: der})
+	k := g.leaf.Key
+	k.KeyVal.Certificate = string(p)
+	return &certFn{name: name, leaf: lib.Leaf{Cert: c, Signer: g.leaf.Signer, CertPEM: p, KeyPEM: g.leaf.KeyPEM, Key: k},
+		under: under, cn: g.cn, orgs: g.orgs}
+}
+
+// respell changes the case of the hexadecimal letters of a key id (upper, or alternating)
+func respell(id string, mixed bool) string {
+	b := []byte(strings.ToUpper(id))
+	if mixed {
+		n := 0
+		for i, c := range b {
+			if c >= 'A' && c <= 'F' {
+				if n%2 == 1 {
+					b[i] = c + 32
+				}
+				n++
+			}
+		}
+	}
+	return string(b)
+}
+
+// caseVariant copies a legacy link file and re-spells the keyid field of its signatures (the signed
+// part and the signature bytes are untouched, so the signature stays cryptographically valid)
+func caseVariant(b []byte, mixed bool) ([]byte, string) {
+	var m map[string]any
+	if err := json.Unmarshal(b, &m); err != nil {
+		panic(err)
+	}
+	first := ""
+	for _, sg := range m["signatures"].([]any) {
+		o := sg.(map[string]any)
+		o["keyid"] = respell(o["keyid"].(string), mixed)
+		if first == "" {
+			first = o["keyid"].(string)
+		}
+	}
+	out, _ := json.MarshalIndent(m, "", "  ")
+	return out, first
 }
 
 // ---------------------------------------------------------------- scenario
@@ -110,15 +187,15 @@ type stepShape struct {
 }
 
 type scenario struct {
-	klass     string
-	steps     []stepShape
-	defined   map[int]bool // pool keys defined in layout.Keys
-	roots     string       // "none" | "root" | "both"
-	interIn   string       // "layout" | "extra" | "none"
-	alias     map[int]int  // layout.Keys[id of pool[a]] = pool[b] (inconsistent layout: validateLayoutKeys would refuse it)
-	shortIDs  map[int]bool // the step lists, and the layout defines the key under, only the first 8 characters of the id
-	noOracle  bool
-	items     map[string][]item // step name -> items
+	klass    string
+	steps    []stepShape
+	defined  map[int]bool // pool keys defined in layout.Keys
+	roots    string       // "none" | "root" | "both"
+	interIn  string       // "layout" | "extra" | "none"
+	alias    map[int]int  // layout.Keys[id of pool[a]] = pool[b] (inconsistent layout: validateLayoutKeys would refuse it)
+	shortIDs map[int]bool // the step lists, and the layout defines the key under, only the first 8 characters of the id
+	noOracle bool
+	items    map[string][]item // step name -> items
 }
 
 var star = []string{"*"}
@@ -173,6 +250,8 @@ func (w *world) chainOK(f *certFn, sc *scenario) bool {
 		return hasRoot
 	case "evil":
 		return sc.roots == "both"
+	case "self":
+		return false
 	}
 	return false
 }
@@ -381,6 +460,26 @@ func makers() []maker {
 		leafItem("carol", "cert-carol-under-root"),
 		leafItem("dave", "cert-expired"),
 		leafItem("eve", "cert-foreign-root"),
+		// a certificate for the key of a genuine functionary issued by the foreign root / self-signed
+		{"rogue-cert-same-key", func(w *world, sc *scenario, st stepShape, r *lib.Rng) *item {
+			n := []string{"alice", "bob", "carol"}[r.Intn(3)] + []string{"-rogue-foreign", "-rogue-self"}[r.Intn(2)]
+			return w.certItem(st, sc, w.leaves[n], "rogue-cert-same-key")
+		}},
+		// copy of a key-signed link whose keyid field is re-spelt in upper / mixed case, stored under the re-spelt prefix:
+		// the same functionary, never a second one
+		{"case-variant-key-id", func(w *world, sc *scenario, st stepShape, r *lib.Rng) *item {
+			i := pickKey(st, sc, r, true, w)
+			if i < 0 {
+				i = r.Intn(len(w.pool))
+			}
+			b, id := caseVariant(w.keyItem(st, sc, i, "").content, r.Bool())
+			return &item{name: linkName(st.name, id), content: b, label: "case-variant-key-id"}
+		}},
+		{"case-variant-cert-key-id", func(w *world, sc *scenario, st stepShape, r *lib.Rng) *item {
+			f := w.leaves[[]string{"alice", "bob", "carol"}[r.Intn(3)]]
+			b, id := caseVariant(w.certItem(st, sc, f, "").content, r.Bool())
+			return &item{name: linkName(st.name, id), content: b, label: "case-variant-cert-key-id"}
+		}},
 		{"cert-tampered", func(w *world, sc *scenario, st stepShape, r *lib.Rng) *item {
 			it := w.certItem(st, sc, w.leaves["bob"], "cert-tampered")
 			return &item{name: it.name, content: tamperLegacy(it.content), label: "cert-tampered"}
@@ -557,7 +656,7 @@ func randomScenario(w *world, r *lib.Rng, mk []maker) *scenario {
 	sc.roots = []string{"root", "root", "root", "none", "both"}[r.Intn(5)]
 	sc.interIn = []string{"layout", "layout", "extra", "none"}[r.Intn(4)]
 	ns := 1
-	if r.Chance(1, 3) {
+	if r.Chance(2, 5) {
 		ns = 2
 	}
 	if r.Chance(1, 40) {
@@ -667,6 +766,65 @@ func witnessScenarios(w *world, r *lib.Rng) []*scenario {
 		sc.steps = []stepShape{st}
 		sc.addItem(st, w.keyItem(st, sc, 4, "key-listed-by-short-id"))
 		sc.addItem(st, w.keyItem(st, sc, 5, "key-authorised"))
+		out = append(out, sc)
+	}
+	// one functionary twice: the honest link plus a copy whose key id is spelt in another case, threshold 2
+	for v := 0; v < 4; v++ {
+		sc := &scenario{klass: "case-variant-key-id", defined: map[int]bool{}, items: map[string][]item{}, roots: "root", interIn: "layout"}
+		st := stepShape{name: "build", threshold: 2, ccs: []intoto.CertificateConstraint{ccAll()}}
+		var honest *item
+		if v < 2 {
+			// a pool key whose 8-character prefix contains a letter (so that the re-spelt file name differs)
+			var withLetter []int
+			for i := range w.pool {
+				if p := short(w.pool[i].Pub.KeyID); strings.ToUpper(p) != p {
+					withLetter = append(withLetter, i)
+				}
+			}
+			if len(withLetter) == 0 {
+				continue
+			}
+			k := withLetter[0]
+			if v == 1 {
+				k = withLetter[len(withLetter)-1]
+			}
+			sc.defined[k] = true
+			st.pubkeys = []int{k}
+			honest = w.keyItem(st, sc, k, "key-authorised")
+		} else {
+			honest = w.certItem(st, sc, w.leaves[[]string{"alice", "bob"}[v-2]], "cert")
+		}
+		sc.steps = []stepShape{st}
+		sc.addItem(st, honest)
+		b, id := caseVariant(honest.content, false)
+		sc.addItem(st, &item{name: linkName(st.name, id), content: b, label: "case-variant-copy-upper"})
+		b, id = caseVariant(honest.content, true)
+		sc.addItem(st, &item{name: linkName(st.name, id), content: b, label: "case-variant-copy-mixed"})
+		out = append(out, sc)
+	}
+	// two steps with certificate constraints; one of them gets a link signed by the genuine key but carrying
+	// ANOTHER certificate for that key (foreign root / self-signed): not authorised there, whatever the other step saw
+	for v := 0; v < 6; v++ {
+		sc := &scenario{klass: "rogue-cert-same-key-other-step", defined: map[int]bool{}, items: map[string][]item{}, roots: "root", interIn: "layout"}
+		who := []string{"alice", "bob", "carol"}[v%3]
+		rogue := w.leaves[who+[]string{"-rogue-foreign", "-rogue-self"}[(v/3)%2]]
+		s1 := stepShape{name: "build", threshold: 1, ccs: []intoto.CertificateConstraint{ccAll()}}
+		s2 := stepShape{name: "test", threshold: 1, ccs: []intoto.CertificateConstraint{ccCN(rogue.cn)}}
+		if v >= 3 {
+			s2.ccs = []intoto.CertificateConstraint{ccAll()}
+		}
+		sc.steps = []stepShape{s1, s2}
+		if v%2 == 0 { // genuine certificate first, rogue one in the later step
+			sc.addItem(s1, w.certItem(s1, sc, w.leaves[who], "cert-genuine"))
+			sc.addItem(s2, w.certItem(s2, sc, rogue, "rogue-cert-same-key"))
+		} else { // rogue first, genuine later (a cached failure must not reject the genuine one)
+			sc.addItem(s1, w.certItem(s1, sc, rogue, "rogue-cert-same-key"))
+			sc.addItem(s2, w.certItem(s2, sc, w.leaves[who], "cert-genuine"))
+		}
+		if v >= 3 { // and an unrelated honest link so that only the rogue certificate decides
+			sc.addItem(s1, w.certItem(s1, sc, w.leaves["carol"], "cert-carol-under-root"))
+			sc.addItem(s2, w.certItem(s2, sc, w.leaves["carol"], "cert-carol-under-root"))
+		}
 		out = append(out, sc)
 	}
 	// F14: threshold <= 0 and no (countable) links
